@@ -707,6 +707,20 @@ func props() []rp.Prop {
 		} else if ev.Shard() == 0 {
 			cases = append(cases, slowCase{HoldMs: 3200, Extra: 2})
 		}
+		// a hold longer than every time constant in the library's source (harvested: a queue limit, a watchdog, a keep-alive would
+		// be one of them) - 1.5 s more than the largest, at most 40 s in the quick tier and 11 min in the thorough one
+		if ev.Shard() == ev.Shards()-1 {
+			limit, longest := 40*time.Second, 1*time.Second
+			if ev.Thorough() {
+				limit = 11 * time.Minute
+			}
+			for _, x := range gen.DictDurations() {
+				if x > longest && x <= limit {
+					longest = x
+				}
+			}
+			cases = append(cases, slowCase{HoldMs: int((longest + 1500*time.Millisecond) / time.Millisecond), Extra: 2})
+		}
 		for _, c := range cases {
 			if !yield(c) {
 				return
